@@ -1256,4 +1256,199 @@ Proof.
     + exact H.
 Qed.
 
+(* ================= Part D: the call as a whole ================= *)
+Definition res0 (a : ast) : status :=
+  mkStatus 0 (match a_stream a with None => true | Some _ => false end) 0 [].
+Definition feed (a : ast) (new : bytes) : ast :=
+  mkA (a_B a) (a_space a - len new) (a_parsed a) (a_raw a ++ new) (a_out a) (a_req a) (a_stream a)
+      (a_prem a) (a_pad a) (a_st a).
+Definition l0 (a : ast) (new : bytes) (dest : option N) : alstate := mkAL (feed a new) (res0 a) dest.
+
+Lemma aparse_eq a new dest : legal a new dest ->
+  aparse maxc a new dest =
+  match aparse_loop maxc (2 * N.to_nat (a_B a) + 8) (l0 a new dest) with
+  | AContinue l | ABreak l => AOk (al l) (ares l)
+  | AErr l e => AFail (al l) e (ares l)
+  | APanic n => APanicked n
+  end.
+Proof.
+  intros [Hb [Hsp Hd]]. unfold aparse.
+  assert (H1 : (match dest with Some _ => negb (len (a_parsed a) =? 0) | None => false end) = false).
+  { destruct dest as [c|]; [|reflexivity]. rewrite Hd by discriminate. reflexivity. }
+  rewrite H1.
+  destruct (N.ltb_spec (a_space a) (len new)) as [Hl|_]; [lia|]. reflexivity.
+Qed.
+
+Lemma linv_l0 a new dest : a_inv a -> legal a new dest -> linv (l0 a new dest).
+Proof.
+  intros [Hok [Hp [Hq [Hb [Hs Hi]]]]] [Hnb [Hsp Hd]]. unfold l0, feed, linv. cbn [al acap a_parsed].
+  split; [|exact Hd].
+  unfold a_inv, a_ok in *. cbn [a_B a_space a_parsed a_raw a_out a_req a_stream a_prem a_pad a_st].
+  rewrite len_app. repeat split.
+  - lia.
+  - exact Hp.
+  - exact Hq.
+  - apply bytes_ok_app. split; assumption.
+  - exact Hs.
+  - exact Hi.
+Qed.
+
+Lemma fuel_l0 a new dest : a_inv a -> legal a new dest ->
+  (length (a_raw (al (l0 a new dest))) < 2 * N.to_nat (a_B a) + 8)%nat.
+Proof.
+  intros [Hok _] [_ [Hsp _]]. unfold a_ok in Hok. cbn [l0 al feed a_raw].
+  pose proof (len_app (a_raw a) new) as H. unfold len in *. lia.
+Qed.
+
+(* the outcome of a legal call, in terms of the loop relation *)
+Lemma aparse_spec a new dest : a_inv a -> legal a new dest ->
+  (exists l', aparse maxc a new dest = AOk (al l') (ares l') /\ pres (l0 a new dest) l' /\ linv l' /\
+              s_end (ares l') = s_end (res0 a) || at_term (al l')) \/
+  (exists l' e, aparse maxc a new dest = AFail (al l') e (ares l') /\ cont_post (l0 a new dest) l' /\
+                err_at (al l') e).
+Proof.
+  intros Hinv Hleg. rewrite (aparse_eq a new dest Hleg).
+  pose proof (loop_ok _ _ (linv_l0 a new dest Hinv Hleg) (fuel_l0 a new dest Hinv Hleg)) as H.
+  destruct (aparse_loop maxc (2 * N.to_nat (a_B a) + 8) (l0 a new dest)) as [l'|l'|l' e|n]; cbn [loop_post] in H.
+  - contradiction.
+  - left. exists l'. split; [reflexivity|exact H].
+  - right. exists l', e. split; [reflexivity|exact H].
+  - contradiction.
+Qed.
+
+Lemma aparse_pres a new dest a' s : a_inv a -> legal a new dest ->
+  (aparse maxc a new dest = AOk a' s \/ exists e, aparse maxc a new dest = AFail a' e s) ->
+  exists l', al l' = a' /\ ares l' = s /\ pres (l0 a new dest) l' /\ linv l'.
+Proof.
+  intros Hinv Hleg Hres.
+  destruct (aparse_spec a new dest Hinv Hleg) as [[l' [E [P [I _]]]]|[l' [e [E [[P [I _]] _]]]]];
+    rewrite E in Hres; destruct Hres as [Hres|[e' Hres]]; try discriminate Hres;
+    inversion Hres; subst; exists l'; (split; [reflexivity|split; [reflexivity|split; assumption]]).
+Qed.
+
+Lemma head_err_kind rid h e : head_err rid h = Some e -> e = EAbortRequest \/ exists v, e = EUnknownVersion v.
+Proof.
+  unfold head_err. destruct (hdr_decode h) as [t hid cl pl|v|t].
+  - destruct (is_input_stream t && (hid =? rid)); [discriminate|].
+    destruct ((t =? RT_AbortRequest) && (hid =? rid)); [|discriminate].
+    intros H; inversion H. left; reflexivity.
+  - intros H; inversion H. right; exists v; reflexivity.
+  - discriminate.
+Qed.
+
+Lemma K_feed a new u : K (feed a new) u = K a (new ++ u).
+Proof.
+  rewrite !K_eq. unfold rl, ri, feed.
+  cbn [a_B a_space a_parsed a_raw a_out a_req a_stream a_prem a_pad a_st]. rewrite <- app_assoc. reflexivity.
+Qed.
+Lemma F_feed sg a new u : F sg (feed a new) u = F sg a (new ++ u).
+Proof.
+  rewrite !F_eq. unfold rl, ri, feed.
+  cbn [a_B a_space a_parsed a_raw a_out a_req a_stream a_prem a_pad a_st]. rewrite <- app_assoc. reflexivity.
+Qed.
+Lemma R_feed a new u : R maxc (feed a new) u = R maxc a (new ++ u).
+Proof.
+  rewrite !R_eq. unfold ri, feed.
+  cbn [a_B a_space a_parsed a_raw a_out a_req a_stream a_prem a_pad a_st]. rewrite <- app_assoc. reflexivity.
+Qed.
+
+(* ---- T6: totality ---- *)
+Theorem T_total : T_total_stmt maxc.
+Proof.
+  intros a new dest Hinv Hleg.
+  destruct (aparse_spec a new dest Hinv Hleg) as [[l' [E [P [I _]]]]|[l' [e [E [[P [I _]] He]]]]].
+  - left. exists (al l'), (ares l'). split; [exact E|apply I].
+  - right. exists (al l'), e, (ares l'). split; [exact E|]. split; [apply I|].
+    destruct He as [_ [_ [_ He]]]. apply (head_err_kind _ _ _ He).
+Qed.
+
+(* ---- T1: content conservation ---- *)
+Theorem T_content : T_content_stmt maxc.
+Proof.
+  intros a new dest u a' s Hinv Hleg Hu Hres.
+  destruct (aparse_pres a new dest a' s Hinv Hleg Hres) as [l' [Ea [Es [P I]]]]. subst a' s.
+  split.
+  { pose proof (p_K _ _ P u) as H. cbn [l0 al ares res0 s_dest app] in H. rewrite K_feed in H. exact H. }
+  split; [apply (p_stream _ _ P)|]. split; [apply (p_req _ _ P)|].
+  pose proof (p_cap _ _ P) as Hc. unfold cap_rel in Hc. cbn [l0 al ares acap res0 s_dest s_stream feed a_parsed] in Hc.
+  split.
+  - intros ->. destruct Hc as [_ [Hd [d [Hp Hs]]]]. split; [exact Hd|]. exists d. split; [exact Hp|lia].
+  - intros c ->. destruct Hc as [d [c' [_ [Hp [Hd [Hs Hcc]]]]]]. cbn [app] in Hd.
+    destruct Hleg as [_ [_ Hpe]]. rewrite Hpe in Hp by discriminate.
+    split; [exact Hp|]. rewrite Hd. split; lia.
+Qed.
+
+(* ---- T2: later streams untouched ---- *)
+Theorem T_later : T_later_stmt maxc.
+Proof.
+  intros a new dest u a' s sg Hinv Hleg Hu Hl Hres.
+  destruct (aparse_pres a new dest a' s Hinv Hleg Hres) as [l' [Ea [Es [P I]]]]. subst a' s.
+  rewrite <- (F_feed (Some sg) a new u). apply (p_F _ _ P). exact Hl.
+Qed.
+
+(* ---- T3: replies ---- *)
+Theorem T_replies : T_replies_stmt maxc.
+Proof.
+  intros a new dest u a' s Hinv Hleg Hu Hres.
+  destruct (aparse_pres a new dest a' s Hinv Hleg Hres) as [l' [Ea [Es [P I]]]]. subst a' s.
+  split.
+  - rewrite <- (R_feed a new u). apply (p_R _ _ P).
+  - destruct (p_out _ _ P) as [o [Ho Hs]]. exists o. split; [exact Ho|].
+    cbn [l0 ares res0 s_output] in Hs. lia.
+Qed.
+
+(* ---- T4: end of stream ---- *)
+Theorem T_end : T_end_stmt maxc.
+Proof.
+  intros a new dest a' s Hinv Hleg Hres.
+  destruct (aparse_spec a new dest Hinv Hleg) as [[l' [E [P [I He]]]]|[l' [e [E _]]]];
+    rewrite E in Hres; [|discriminate Hres].
+  inversion Hres; subst a' s. rewrite He. cbn [res0 s_end].
+  unfold at_term, rl, ri. rewrite (p_req _ _ P), (p_stream _ _ P). cbn [l0 al feed a_req a_stream].
+  destruct (a_stream a) as [x|] eqn:Es; [reflexivity|reflexivity].
+Qed.
+
+(* ---- T7: errors are sticky ---- *)
+Lemma aparse_head_err l e : err_at (al l) e -> aparse_head l = AErr l e.
+Proof.
+  intros [Hp [Hq [H8 He]]]. rewrite aparse_head_eq. cbv zeta.
+  unfold a_boundary. rewrite Hp, Hq. change (negb ((0 =? 0) && (0 =? 0))) with false. cbv iota.
+  destruct (N.ltb_spec (len (a_raw (al l))) HEADER_LEN) as [Hl|_]; [lia|].
+  unfold head_err, ri in He.
+  destruct (hdr_decode (take HEADER_LEN (a_raw (al l)))) as [t hid cl pl|v|t].
+  - destruct (is_input_stream t && (hid =? r_id (a_req (al l)))); [discriminate He|].
+    destruct ((t =? RT_AbortRequest) && (hid =? r_id (a_req (al l)))); [|discriminate He].
+    inversion He. reflexivity.
+  - inversion He. reflexivity.
+  - discriminate He.
+Qed.
+
+Lemma aparse_loop_err f l e : err_at (al l) e -> aparse_loop maxc (S f) l = AErr l e.
+Proof.
+  intros He. pose proof He as [Hp [Hq [H8 _]]]. cbn [aparse_loop].
+  destruct (a_raw (al l)) as [|b r] eqn:Eraw.
+  { change (len (@nil N)) with 0 in H8. unfold HEADER_LEN in H8. lia. }
+  rewrite aparse_iter_eq. rewrite Hp, ltb_0_0.
+  unfold after_payload. cbv zeta. rewrite Hq, ltb_0_0.
+  rewrite (aparse_head_err l e He). reflexivity.
+Qed.
+
+Theorem T_sticky : T_sticky_stmt maxc.
+Proof.
+  intros a new dest a' e s new' dest' Hinv Hleg Hres Hleg'.
+  destruct (aparse_spec a new dest Hinv Hleg) as [[l' [E _]]|[l' [e' [E [[P [I _]] He]]]]];
+    rewrite E in Hres; [discriminate Hres|].
+  inversion Hres; subst a' e' s. clear Hres E.
+  rewrite (aparse_eq _ _ _ Hleg').
+  assert (He' : err_at (al (l0 (al l') new' dest')) e).
+  { destruct He as [Hp [Hq [H8 Hh]]]. unfold err_at, ri in *.
+    cbn [l0 al feed a_prem a_pad a_raw a_req].
+    rewrite len_app. rewrite (take_app_le HEADER_LEN _ new' H8).
+    repeat split; try assumption. lia. }
+  replace (2 * N.to_nat (a_B (al l')) + 8)%nat with (S (2 * N.to_nat (a_B (al l')) + 7)) by lia.
+  rewrite (aparse_loop_err _ _ _ He').
+  exists (feed (al l') new'). cbn [l0 al ares]. split; [reflexivity|].
+  cbn [feed a_parsed a_out a_raw]. repeat split; reflexivity.
+Qed.
+
 End Machine.
